@@ -919,3 +919,1006 @@ Proof.
       assert (A4 := SL (set_fstate m t ST_RUNNING) (WPYield (YPRead true)) eq_refl ltac:(cbn; intros Q; discriminate Q)).
       kw I Hw Hk Hu (mpriv_fstate t g m ST_RUNNING).
 Qed.
+
+(* ------------------------------------------------------------------ *)
+(* going to sleep at the end of do_maintenance (or resuming at once when the
+   wake-up has already arrived) *)
+Definition sleep_mem (m0 : kmem) (t : nat) : kmem * waitpos :=
+  match pend m0 t with
+  | S k => (set_pend m0 t k, WPYield YPResume)
+  | O => (set_blocked m0 t true, WPYield YPAsleep)
+  end.
+
+Lemma to_sleep m m0 V g c t q wp v' :
+  Inv1 m V g c -> v_wait (V t) = Some (q, wp) -> presleep wp = true -> (forall a b, wp <> WPLink a b) ->
+  (forall cnt wc w q0, v_wake (V t) = Some (q0, cnt, wc, w) -> inhand w = false /\ q0 <> COND) ->
+  mpriv t g m m0 -> (fstate m0 t = fstate m t \/ fstate m0 t = ST_WAITING) ->
+  fnode m0 t = fnode m t -> pend m0 t = pend m t -> blocked m0 t = blocked m t -> slot_mutex m0 t = None ->
+  vwf v' -> v_wait v' = Some (q, snd (sleep_mem m0 t)) -> v_lockw v' = v_lockw (V t) -> v_cw3 v' = v_cw3 (V t) ->
+  v_wake v' = None -> v_uadd v' = None -> (v_h0 v' = true -> v_h0 (V t) = true) ->
+  Inv1 (fst (sleep_mem m0 t)) (upd V t v') g c.
+Proof.
+  intros [I C] Hw Hps Hnl Hnw P Hst Hfn Hpd Hbl Hsl W' Hw' Hl' Hc' Hk' Hu' Hh'.
+  pose proof (l_wf _ _ _ I t) as Wt.
+  destruct (w_wait _ Wt _ _ Hw) as (Hq & _ & _ & _ & H1 & Tr).
+  destruct (w_wait _ W' _ _ Hw') as (_ & _ & _ & _ & H1' & Tr').
+  pose proof (l_acct _ _ _ I t) as La. rewrite Hw in La. cbn in La. rewrite Hps in La. destruct La as [Ab Ap].
+  set (m1 := fst (sleep_mem m0 t)). set (wp' := snd (sleep_mem m0 t)).
+  assert (P1 : mpriv t g m m1).
+  { unfold m1, sleep_mem. destruct (pend m0 t); cbn; constructor; try apply P; cbn; intros; rewrite ?upd_other by auto; apply P; auto. }
+  assert (M1 : fstate m1 = fstate m0 /\ fnode m1 = fnode m0 /\ slot_mutex m1 = slot_mutex m0).
+  { unfold m1, sleep_mem. destruct (pend m0 t); cbn; auto. }
+  destruct M1 as (M1s & M1f & M1l).
+  assert (AX : afterx wp = true /\ afterx wp' = true).
+  { split; [destruct wp as [| | | | |yp]; try discriminate Hps; auto|].
+    unfold wp', sleep_mem. destruct (pend m0 t); reflexivity. }
+  destruct AX as [Ax Ax'].
+  assert (ACC : acct_local m1 g t (Some (q, wp'))).
+  { unfold m1, wp', sleep_mem. rewrite Hpd. destruct (pend m t) eqn:Ep; cbn.
+    - rewrite upd_same. split; auto. destruct (got g t); [discriminate Ap|reflexivity].
+    - rewrite upd_same. destruct (got g t); [|discriminate Ap]. inversion Ap; subst. rewrite Hbl. auto. }
+  split.
+  - apply (inv_private m m1 V g t v' I P1 W').
+    + rewrite M1s. destruct Hst as [A|A]; auto.
+    + left. rewrite M1f. exact Hfn.
+    + rewrite M1f, Hfn. apply (l_own _ _ _ I t).
+    + apply (holds_from _ _ _ _ _ I); auto. intros Q. congruence.
+    + intros q0 wp0 A B D. rewrite Hw' in A. inversion A; subst. eapply (tk_got _ _ _ I t); eauto; congruence.
+    + intros q0 cnt wc kp A. congruence.
+    + intros q0 a b A. rewrite Hw in A. inversion A; subst. destruct (Hnl a b eq_refl).
+    + intros q0 wp0 A B D. rewrite Hw in A. inversion A; subst. eauto.
+    + intros q0 cnt wc w A B. destruct (Hnw _ _ _ _ A). congruence.
+    + intros q0 cnt wc w A. congruence.
+    + intros q0 wp0 A. rewrite Hw' in A. inversion A; subst. fold wp'.
+      unfold wp', sleep_mem. destruct (pend m0 t); exact Logic.I.
+    + rewrite Hw'. exact ACC.
+    + rewrite Hw'. fold wp'. unfold wp', sleep_mem. destruct (pend m0 t); exact Logic.I.
+    + rewrite Hw'. intros H. rewrite M1f, Hfn. apply (l_node _ _ _ I t). rewrite Hw. fold wp' in H.
+      destruct H as [H|H]; [|right; exact H].
+      unfold wp', sleep_mem in H. destruct (pend m0 t); discriminate H.
+    + intros q0 Q. rewrite M1l, Hsl in Q. discriminate Q.
+    + intros q0 q' ip A. rewrite Hw' in A. fold wp' in A. unfold wp', sleep_mem in A. destruct (pend m0 t); discriminate A.
+  - apply cinv_view; auto.
+    + intros Q. congruence.
+    + intros _ Q. congruence.
+    + intros cnt wc w Q. congruence.
+    + rewrite Hc'. tauto.
+Qed.
+
+(* ------------------------------------------------------------------ *)
+(* a granted wait returns to the client *)
+Lemma wait_return m V g c t q st v' :
+  Inv1 m V g c -> v_wait (V t) = Some (q, WPYield (YPNext true st)) ->
+  vwf v' -> v_wait v' = None -> v_wake v' = None -> v_trans v' = false ->
+  (forall q0, vholds q0 v' = true -> vholds q0 (V t) = true \/ (q0 = q /\ v_lockw (V t) = true)) ->
+  Inv1 m (upd V t v') (set_got g t false) c.
+Proof.
+  intros [I C] Hw W' Hw' Hk' Ht' Hh.
+  pose proof (l_wf _ _ _ I t) as Wt.
+  destruct (w_wait _ Wt _ _ Hw) as (Hq & _ & _ & _ & H1 & Tr).
+  destruct (nowake_in_wait _ _ _ _ _ _ I Hw ltac:(discriminate)) as [Nw Nu].
+  pose proof (l_acct _ _ _ I t) as La. rewrite Hw in La. cbn in La. destruct La as (Ag & Ap & Ab).
+  assert (TK : forall q0, vholds q0 v' = true -> tok g q0 = THeld t).
+  { intros q0 Q. destruct (Hh q0 Q) as [A|[-> A]]; [apply (tk_hold _ _ _ I t q0 A)|eapply (tk_got _ _ _ I t); eauto]. }
+  split.
+  - apply k_got; auto.
+    intros q0 Q. destruct (l_slot _ _ _ I t q0 Q) as (_ & _ & wp & A & B). rewrite Hw in A. inversion A; subst. discriminate B.
+  - apply cinv_got; auto.
+    + apply nowait_nocw3; auto.
+    + intros Q. rewrite Ht'. unfold vout. rewrite Hk'.
+      assert (F : forall u, v_h1 (V u) = false).
+      { intros u. destruct (Nat.eq_dec u t) as [->|Hu]; auto.
+        destruct (v_h1 (V u)) eqn:E; auto. exfalso.
+        pose proof (tk_hold _ _ _ I u 1%nat E) as A. pose proof (TK 1%nat Q) as B. congruence. }
+      destruct (cn_free _ _ _ C F). split; auto. lia.
+    + intros _ Q. congruence.
+Qed.
+
+(* ------------------------------------------------------------------ *)
+(* fiber_mutex_lock *)
+Lemma lock_ret_view c0 q m t m' p' :
+  cphase_okb c0 (KLock q LPSub) = true -> creturn m t c0 1 = (m', p') ->
+  m' = m /\ phase_ok p' /\ v_wait (view_of p') = None /\ v_wake (view_of p') = None /\ v_trans (view_of p') = false /\
+  (forall lp q0, vholds q0 (view_of p') = true -> vholds q0 (view_of (PRun c0 (KLock q lp))) = true \/ q0 = q).
+Proof.
+  intros Hc E. destruct c0; try discriminate Hc; destruct q as [|[|q]]; try discriminate Hc;
+    cbn in E; injection E as <- <-; cbn; repeat split; auto;
+    intros lp [|[|q0]] Q; cbn in *; auto; try discriminate Q.
+Qed.
+
+Lemma norm_nomaint wp : ismaintw wp = false -> norm_wp wp = wp.
+Proof. destruct wp as [| | | | |[]]; cbn; auto; discriminate. Qed.
+
+Lemma lockwait_view c0 q wp wp' :
+  cphase_okb c0 (KLock q LPSub) = true -> ismaintw wp = false -> ismaintw wp' = false ->
+  view_of (PRun c0 (KLock q (LPWait wp'))) = set_vwait (view_of (PRun c0 (KLock q (LPWait wp)))) (Some (q, wp')).
+Proof.
+  intros Hc Hn Hn'. destruct c0; try discriminate Hc; unfold view_of, set_vwait; cbn;
+    rewrite (norm_nomaint _ Hn');
+    destruct wp as [| | | | |[| | | | | |q0 ip0| |]]; try discriminate Hn;
+    destruct wp' as [| | | | |[| | | | | |q' ip| |]]; try discriminate Hn'; reflexivity.
+Qed.
+
+Lemma mutex_of_lock c0 q lp : cphase_okb c0 (KLock q lp) = true -> is_mutex q = true /\ isq q.
+Proof.
+  destruct c0; cbn; try discriminate; destruct q as [|[|q]]; try discriminate; intros _; split; auto;
+    unfold isq, UMUTEX, IMUTEX; auto.
+Qed.
+
+Lemma lock_view_facts c0 q lp : cphase_okb c0 (KLock q lp) = true ->
+  v_h1 (view_of (PRun c0 (KLock q lp))) = false /\ v_cw3 (view_of (PRun c0 (KLock q lp))) = false /\
+  v_trans (view_of (PRun c0 (KLock q lp))) = false /\ vholds q (view_of (PRun c0 (KLock q lp))) = false.
+Proof.
+  destruct c0; cbn; try discriminate; destruct q as [|[|q]]; try discriminate; intros _; destruct lp; cbn; auto.
+Qed.
+
+Lemma step1_lsub m V g c t c0 q m' p' :
+  Inv1 m V g c -> V t = view_of (PRun c0 (KLock q LPSub)) -> linv0 m c t (PRun c0 (KLock q LPSub)) ->
+  pstep m t (PRun c0 (KLock q LPSub)) = (m', p') ->
+  step1_goal m V g c t (PRun c0 (KLock q LPSub)) m' p'.
+Proof.
+  intros I HV [[Hc Hk] B H1 H2 H3 H4 H5] E. unfold step1_goal.
+  destruct (mutex_of_lock _ _ _ Hc) as [Mq Hq].
+  destruct (lock_view_facts _ _ LPSub Hc) as (F1 & F2 & F3 & F4).
+  assert (G2 : gc_step m t (PRun c0 (KLock q LPSub)) c = c).
+  { apply gc_nosched; [reflexivity|]. intros c1 kp1 Q. inversion Q; subst. destruct c1; try discriminate Hc; reflexivity. }
+  rewrite G2. cbn [pstep gk_step] in *.
+  assert (HVw : v_wait (V t) = None /\ v_wake (V t) = None) by (rewrite HV; destruct c0; try discriminate Hc; auto).
+  destruct HVw as [HVw HVk].
+  destruct (word m q - 1 =? 0) eqn:Ew.
+  - (* acquired *)
+    apply Z.eqb_eq in Ew.
+    destruct (lock_ret_view _ _ _ _ _ _ Hc E) as (-> & Pok & Pw & Pk & Pt & Ph).
+    pose proof (lsub_succ_inv m V g c t q I Mq Ew) as [I1 C1].
+    set (m0 := set_word m q (word m q - 1)) in *. set (g' := set_tok g q (THeld t)) in *.
+    assert (TK : forall q0, vholds q0 (view_of p') = true -> tok g' q0 = THeld t).
+    { intros q0 Q. destruct (Ph LPSub q0 Q) as [A| ->].
+      - apply (tk_hold _ _ _ I1 t q0). now rewrite HV.
+      - unfold g'. cbn. now rewrite upd_same. }
+    apply (jump_inv m0 m0 V g' c t); auto.
+    + split; auto.
+    + apply mpriv_refl.
+    + apply view_wf; auto. now apply maint_cw3_nowait.
+    + eapply noslot; eauto. now rewrite HV.
+    + intros Q. rewrite Pt.
+      assert (F : forall u, v_h1 (V u) = false).
+      { intros u. destruct (Nat.eq_dec u t) as [->|Hu]; [now rewrite HV|].
+        destruct (v_h1 (V u)) eqn:Eu; auto. exfalso.
+        pose proof (tk_hold _ _ _ I1 u 1%nat Eu) as A. pose proof (TK 1%nat Q) as A'. congruence. }
+      destruct (cn_free _ _ _ C1 F). split; auto. lia.
+    + intros _ Q. rewrite HV in Q. congruence.
+  - (* contended: announce and wait *)
+    injection E as <- <-.
+    pose proof (lsub_fail_inv m V g c q I Mq) as [I1 C1].
+    set (m0 := set_word m q (word m q - 1)) in *. set (g' := set_gw g q (gw g q + 1)) in *.
+    set (v' := view_of (PRun c0 (KLock q (LPWait WPSaving)))).
+    assert (Vw : v_wait v' = Some (q, WPSaving) /\ v_lockw v' = true /\ v_wake v' = None /\ v_uadd v' = None /\
+                 v_h0 v' = v_h0 (V t) /\ v_h1 v' = false /\ v_cw3 v' = false /\ v_trans v' = false).
+    { rewrite HV. destruct c0; try discriminate Hc; cbn; auto 10. }
+    destruct Vw as (V1 & V2 & V3 & V4 & V5 & V6 & V7 & V8).
+    assert (W' : vwf v').
+    { apply view_wf; [split; auto; exact Logic.I|]. intros q0 wp Q. inversion Q; subst. discriminate. }
+    pose proof (l_acct _ _ _ I1 t) as La. rewrite HVw in La. cbn in La. destruct La as (Ag & Ap & Ab).
+    split.
+    + apply (inv_private m0 m0 V g' t v' I1 (mpriv_refl _ _ _) W').
+      * left; reflexivity.
+      * left; reflexivity.
+      * apply (l_own _ _ _ I1 t).
+      * apply (holds_from _ _ _ _ _ I1); congruence.
+      * intros q0 wp A _ D. unfold g' in D. cbn in D. congruence.
+      * intros q0 cnt wc kp A. congruence.
+      * intros q0 a b A. congruence.
+      * intros q0 wp A. congruence.
+      * intros q0 cnt wc w A. congruence.
+      * intros q0 cnt wc w A. congruence.
+      * intros q0 wp A. rewrite V1 in A. inversion A; subst. exact Logic.I.
+      * rewrite V1. cbn. auto.
+      * rewrite V1. exact Logic.I.
+      * intros _. apply (l_node _ _ _ I1 t). rewrite HVw. exact Logic.I.
+      * intros q0 Q. exfalso. eapply (noslot _ _ _ _ I1); eauto. now rewrite HV.
+      * intros q0 q' ip A. rewrite V1 in A. discriminate A.
+    + apply cinv_view; auto.
+      * intros Q. congruence.
+      * intros _ Q. rewrite HV in Q. congruence.
+      * intros cnt wc w Q. congruence.
+      * rewrite V7, HV, F2. tauto.
+Qed.
+
+Lemma wait_cont_nomaint m t q wp m1 wp' :
+  wait_step m t q wp = (m1, TCont wp') -> ismaintw wp = false -> wp <> WPYield YPMFlip ->
+  (wp = WPYield YPMRead -> fstate m t = ST_SAVING) -> ismaintw wp' = false.
+Proof.
+  intros E Hn Hf Hs. destruct wp as [| | | | |yp]; cbn in E; try (injection E as <- <-; reflexivity).
+  destruct yp as [b|b st| | | | |q' ip| |]; cbn in E; try discriminate Hn; try (injection E as <- <-; reflexivity).
+  - destruct (waitingish st); [injection E as <- <-; reflexivity|discriminate E].
+  - destruct (fstate m t =? ST_RUNNING); [discriminate E|injection E as <- <-; reflexivity].
+  - rewrite (Hs eq_refl) in E. cbn in E. injection E as <- <-; reflexivity.
+  - congruence.
+Qed.
+
+Lemma waitpos_eq_flip wp : wp = WPYield YPMFlip \/ wp <> WPYield YPMFlip.
+Proof. destruct wp as [| | | | |[]]; try (right; discriminate). left; reflexivity. Qed.
+
+Lemma step1_lockwait m V g c t c0 q wp m' p' :
+  Inv1 m V g c -> V t = view_of (PRun c0 (KLock q (LPWait wp))) -> linv0 m c t (PRun c0 (KLock q (LPWait wp))) ->
+  pstep m t (PRun c0 (KLock q (LPWait wp))) = (m', p') ->
+  (wp = WPYield YPAsleep -> blocked m t = false) ->
+  step1_goal m V g c t (PRun c0 (KLock q (LPWait wp))) m' p'.
+Proof.
+  intros I HV [[Hc Hk] B H1 H2 H3 H4 H5] E Hbl. unfold step1_goal.
+  pose proof I as [K C].
+  assert (Hc' : cphase_okb c0 (KLock q LPSub) = true) by (destruct c0; try discriminate Hc; exact Hc).
+  destruct (mutex_of_lock _ _ _ Hc) as [Mq Hq].
+  destruct (lock_view_facts _ _ (LPWait wp) Hc) as (F1 & F2 & F3 & F4).
+  assert (HVw : v_wait (V t) = Some (q, norm_wp wp)) by (rewrite HV; reflexivity).
+  (* no maintenance inside the wait of a lock: the deferred unlock belongs to cond_wait *)
+  assert (NM : ismaintw wp = false).
+  { destruct wp as [| | | | |[| | | | | |q' ip| |]]; auto. exfalso.
+    pose proof (l_maint _ _ _ K t _ _ _ HVw) as Q. rewrite HV, F2 in Q. discriminate Q. }
+  rewrite (norm_nomaint _ NM) in HVw.
+  destruct (nowake_in_wait _ _ _ _ _ _ K HVw) as [Nw Nu].
+  { intros q' Q. rewrite Q in NM. discriminate NM. }
+  assert (NS : slot_mutex m t = None).
+  { destruct (slot_mutex m t) eqn:Es; auto. exfalso. destruct (l_slot _ _ _ K t _ Es) as (_ & Q & _). rewrite HV, F2 in Q. discriminate Q. }
+  assert (G2 : gc_step m t (PRun c0 (KLock q (LPWait wp))) c = c).
+  { eapply gc_wait; eauto. destruct c0; try discriminate Hc; reflexivity. }
+  rewrite G2. cbn [pstep] in E. cbn in Hk. unfold pstate in B. cbn in B.
+  pose proof (l_stat _ _ _ K t) as Ls. rewrite HVw in Ls.
+  destruct (wait_step m t q wp) as [m1 r] eqn:Ws.
+  destruct (wait_step0 _ _ _ _ _ _ Ws H1 H2 H3 H4 Hk B) as (_ & _ & R).
+  destruct r as [wp'| |]; [| |destruct R].
+  - (* the wait goes on *)
+    injection E as <- <-.
+    destruct (waitpos_eq_flip wp) as [->|Hnf].
+    + (* the state flip, then sleep *)
+      cbn in Ws. unfold slots_p in Ws. cbn in Ws. rewrite H1, H2, NS, H3 in Ws.
+      assert (G1 : gk_step m t (PRun c0 (KLock q (LPWait (WPYield YPMFlip)))) g = g) by reflexivity.
+      rewrite G1.
+      set (m0 := set_fstate m t ST_WAITING) in *.
+      assert (SM : sleep_p m0 t = (fst (sleep_mem m0 t), YCont (match snd (sleep_mem m0 t) with WPYield yp => yp | _ => YPAsleep end))).
+      { unfold sleep_p, sleep_mem. destruct (pend m0 t); reflexivity. }
+      rewrite SM in Ws. injection Ws as <- <-.
+      assert (Ewp : WPYield (match snd (sleep_mem m0 t) with WPYield yp => yp | _ => YPAsleep end) = snd (sleep_mem m0 t)).
+      { unfold sleep_mem. destruct (pend m0 t); reflexivity. }
+      rewrite Ewp.
+      assert (NMs : ismaintw (snd (sleep_mem m0 t)) = false) by (unfold sleep_mem; destruct (pend m0 t); reflexivity).
+      apply (to_sleep m m0 V g c t q (WPYield YPMFlip)); auto; try discriminate.
+      * intros cnt wc w q0 Q. congruence.
+      * apply mpriv_fstate.
+      * right. unfold m0. cbn. now rewrite upd_same.
+      * apply view_wf.
+        -- split; [exact Hc|]. cbn. unfold sleep_mem. destruct (pend m0 t); exact Logic.I.
+        -- intros q0 wp0 Q. inversion Q; subst. congruence.
+      * cbn. now rewrite (norm_nomaint _ NMs).
+      * rewrite HV. reflexivity.
+      * rewrite HV. reflexivity.
+      * cbn. unfold sleep_mem. destruct (pend m0 t); reflexivity.
+      * cbn. unfold sleep_mem. destruct (pend m0 t); reflexivity.
+      * rewrite HV. destruct c0; try discriminate Hc; cbn; auto.
+    + (* simple positions *)
+      assert (NM' : ismaintw wp' = false).
+      { eapply wait_cont_nomaint; eauto. intros ->. exact Ls. }
+      assert (G1 : gk_step m t (PRun c0 (KLock q (LPWait wp))) g = gk_wait t q wp g).
+      { destruct wp as [| | | | |[b|b st| | | | |q' ip| |]]; try reflexivity; try discriminate NM.
+        cbn in Ws. cbn. destruct (waitingish st); [reflexivity|discriminate Ws]. }
+      rewrite G1, (lockwait_view c0 q wp wp' Hc' NM NM'), <- HV.
+      apply (wait_simple m); auto.
+      * destruct wp as [| | | | |[| | | | | |q' ip| |]]; auto; congruence.
+      * intros st ->. cbn in Hk. now apply st12_nw.
+  - (* the wait returns: the lock is ours *)
+    destruct wp as [| | | | |[b|b st| | | | |q' ip| |]]; try discriminate NM; cbn in Ws; try discriminate Ws;
+      try (destruct (fstate m t =? ST_RUNNING); discriminate Ws);
+      try (destruct (fstate m t =? ST_SAVING); [discriminate Ws|]; unfold slots_p in Ws; rewrite H1, H2, NS, H3 in Ws; unfold sleep_p in Ws; destruct (pend m t); discriminate Ws);
+      try (unfold slots_p in Ws; cbn in Ws; rewrite H1, H2, NS, H3 in Ws; unfold sleep_p in Ws; cbn in Ws; destruct (pend m t); discriminate Ws).
+    destruct (waitingish st) eqn:Ews; [discriminate Ws|]. injection Ws as <-.
+    destruct b.
+    2:{ exfalso. cbn in Ls. destruct Ls as [_ ->]. discriminate Ews. }
+    assert (G1 : gk_step m t (PRun c0 (KLock q (LPWait (WPYield (YPNext true st))))) g = set_got g t false).
+    { cbn. now rewrite Ews. }
+    rewrite G1.
+    destruct (lock_ret_view _ _ _ _ _ _ Hc' E) as (-> & Pok & Pw & Pk & Pt & Ph).
+    apply (wait_return m V g c t q st); auto.
+    + apply view_wf; auto. now apply maint_cw3_nowait.
+    + intros q0 Q. destruct (Ph (LPWait (WPYield (YPNext true st))) q0 Q) as [A| ->].
+      * left. now rewrite HV.
+      * right. split; auto. rewrite HV. reflexivity.
+Qed.
+
+(* ------------------------------------------------------------------ *)
+(* fiber_mutex_unlock *)
+Lemma upd_id {A} (f : nat -> A) t u : upd f t (f t) u = f u.
+Proof. unfold upd. destruct (Nat.eqb_spec u t); congruence. Qed.
+
+Lemma unlock_ret_view c0 q up m t m' p' :
+  cphase_okb c0 (KUnlock q up) = true -> creturn m t c0 1 = (m', p') ->
+  m' = m /\ phase_ok p' /\ v_wait (view_of p') = None /\ v_wake (view_of p') = None /\ v_trans (view_of p') = false /\
+  v_h1 (view_of p') = false /\
+  (v_h0 (view_of p') = true -> v_h0 (view_of (PRun c0 (KUnlock q (UPYield SPRead)))) = true).
+Proof.
+  intros Hc E. destruct c0; try discriminate Hc; cbn in E.
+  - destruct um; injection E as <- <-.
+    + cbn. repeat split; auto.
+    + destruct (start_ok p (S k)) as (A1 & A2 & A3 & A4 & A5 & A6 & A7). repeat split; auto. intros Q. congruence.
+  - injection E as <- <-. destruct (start_ok p (S k)) as (A1 & A2 & A3 & A4 & A5 & A6 & A7). repeat split; auto. intros Q. congruence.
+Qed.
+
+Lemma unlock_view_facts c0 q up : cphase_okb c0 (KUnlock q up) = true ->
+  is_mutex q = true /\ isq q /\
+  v_wait (view_of (PRun c0 (KUnlock q up))) = None /\ v_trans (view_of (PRun c0 (KUnlock q up))) = false /\
+  v_cw3 (view_of (PRun c0 (KUnlock q up))) = false /\
+  vholds q (view_of (PRun c0 (KUnlock q up))) = is_upadd up /\
+  (forall q0, q0 <> q -> vholds q0 (view_of (PRun c0 (KUnlock q up))) = vholds q0 (view_of (PRun c0 (KUnlock q (UPYield SPRead))))) /\
+  vholds q (view_of (PRun c0 (KUnlock q (UPYield SPRead)))) = false.
+Proof.
+  destruct c0; cbn; try discriminate; destruct q as [|[|q]]; try discriminate; intros _;
+    unfold isq, UMUTEX, IMUTEX; repeat split; auto; intros [|[|q0]] Q; cbn; auto; congruence.
+Qed.
+
+Lemma gk_step_wake_unlock m t c0 q wc kp g :
+  gk_step m t (PRun c0 (KUnlock q (UPWake wc kp))) g = gk_wake m t q kp g.
+Proof. destruct kp; reflexivity. Qed.
+
+Lemma gc_wake_mutex m t q kp c : q <> COND -> gc_wake m t q kp c = c.
+Proof.
+  intros H. unfold gc_wake. destruct (sched_of m kp); auto. destruct (Nat.eqb_spec q COND); [contradiction|reflexivity].
+Qed.
+
+Lemma upd_upd {A} (f : nat -> A) t x y u : upd (upd f t x) t y u = upd f t y u.
+Proof. unfold upd. destruct (u =? t)%nat; reflexivity. Qed.
+
+Lemma hand_none_pass m V g t q : KInv m V g -> is_mutex q = true -> isq q -> tok g q = TPass t -> v_wake (V t) = None ->
+  hand g q = None.
+Proof.
+  intros I Mq Hq Ht Hk. destruct (hand g q) as [e|] eqn:E; auto. exfalso.
+  destruct (q_hand _ _ _ I q e Hq E) as (_ & _ & _ & (u & cnt & wc & w & A & B)).
+  destruct w as [kp|]; [|discriminate B].
+  destruct (tk_pass _ _ _ I u _ _ _ _ A Mq) as [P _]. rewrite Ht in P. inversion P; subst. congruence.
+Qed.
+
+Lemma step1_unlock m V g c t c0 q up m' p' :
+  Inv1 m V g c -> V t = view_of (PRun c0 (KUnlock q up)) -> linv0 m c t (PRun c0 (KUnlock q up)) ->
+  pstep m t (PRun c0 (KUnlock q up)) = (m', p') ->
+  step1_goal m V g c t (PRun c0 (KUnlock q up)) m' p'.
+Proof.
+  intros I HV [[Hc Hk] B H1 H2 H3 H4 H5] E. unfold step1_goal.
+  pose proof I as [K C].
+  destruct (unlock_view_facts _ _ _ Hc) as (Mq & Hq & Fw & Ft & Fc & Fh & Fo & Fn).
+  set (vI := view_of (PRun c0 (KUnlock q (UPYield SPRead)))) in *.
+  assert (VI : v_wait vI = None /\ v_wake vI = None /\ v_trans vI = false /\ v_h1 vI = false /\ v_uadd vI = None /\ v_cw3 vI = false).
+  { unfold vI. destruct c0; try discriminate Hc; cbn; auto 10. }
+  destruct VI as (I1 & I2 & I3 & I4 & I5 & I6).
+  assert (WI : vwf vI).
+  { apply view_wf; [split; [destruct c0; try discriminate Hc; exact Hc|exact Logic.I]|now apply maint_cw3_nowait]. }
+  assert (HVw : v_wait (V t) = None) by (rewrite HV; exact Fw).
+  assert (NSl : forall q0, slot_mutex m t = Some q0 -> False) by (eapply noslot; eauto; rewrite HV; exact Fc).
+  assert (PC : plain_client c0 = true) by (destruct c0; try discriminate Hc; reflexivity).
+  assert (Hqc : q <> COND) by (intros ->; discriminate Mq).
+  (* dropping the mutex in the view *)
+  assert (DROP : (v_wake (V t) = None \/ exists q0 cnt wc, v_wake (V t) = Some (q0, cnt, wc, VDone)) ->
+                 (v_h1 (V t) = true -> g_trans c = 0 /\ g_claimed c = g_rel c) ->
+                 forall m0 g0, Inv1 m0 V g0 c -> slot_mutex m0 t = slot_mutex m t -> Inv1 m0 (upd V t vI) g0 c).
+  { intros Hkk Hcc m0 g0 [K0 C0] Hs0. apply (jump_inv m0 m0 V g0 c t); auto.
+    - split; auto.
+    - apply mpriv_refl.
+    - intros [|[|q0]] Q; cbn [vholds] in Q; try discriminate Q.
+      + destruct (Nat.eq_dec 0%nat q) as [<-|Hn]; [change (v_h0 vI = false) in Fn; congruence|].
+        apply (tk_hold _ _ _ K0 t 0%nat). rewrite HV. rewrite (Fo 0%nat Hn). exact Q.
+      + congruence.
+    - intros q0. rewrite Hs0. apply NSl.
+    - intros Q. congruence. }
+  destruct up as [|wc kp|sp].
+  - (* the fetch_add *)
+    assert (G2 : gc_step m t (PRun c0 (KUnlock q UPAdd)) c = c).
+    { apply gc_nosched; [reflexivity|]. intros c1 kp1 Q. inversion Q; subst; auto. }
+    rewrite G2. cbn [pstep gk_step uadd_ctx] in *.
+    assert (Tk : tok g q = THeld t) by (apply (tk_hold _ _ _ K t q); rewrite HV, Fh; reflexivity).
+    assert (HVk : v_wake (V t) = None) by (rewrite HV; destruct c0; try discriminate Hc; reflexivity).
+    assert (Hcc : v_h1 (V t) = true -> g_trans c = 0 /\ g_claimed c = g_rel c).
+    { intros Q. destruct (cn_hold _ _ _ C t Q) as [A A']. rewrite HV, Ft in A. unfold vout in A'. rewrite HVk in A'. split; auto. lia. }
+    pose proof (DROP (or_introl HVk) Hcc m g I eq_refl) as IA.
+    assert (IB := uadd_inv m (upd V t vI) g c t q IA Mq Tk).
+    rewrite upd_same in IB. specialize (IB Fn). 
+    assert (IB' := IB ltac:(intros wp Q; congruence)). clear IB.
+    set (m0 := set_word m q (word m q + 1)) in *.
+    destruct (word m q + 1 =? 1) eqn:Ew.
+    + (* nobody waits: return to the client *)
+      destruct (unlock_ret_view _ _ _ _ _ _ _ Hc E) as (-> & Pok & Pw & Pk & Pt & Ph1 & Ph0).
+      destruct IB' as [KB CB].
+      eapply Inv1_ext; [intros u; apply upd_upd|].
+      refine (jump_inv m0 m0 (upd V t vI) _ c t _ (conj KB CB) (mpriv_refl _ _ _) _ (or_introl eq_refl) eq_refl eq_refl eq_refl _ Pw Pk _ _ _ _ _).
+      * apply view_wf; auto. now apply maint_cw3_nowait.
+      * now rewrite upd_same.
+      * left. now rewrite upd_same.
+      * intros [|[|q0]] Q; cbn [vholds] in Q; try discriminate Q; [|congruence].
+        apply (tk_hold _ _ _ KB t 0%nat). rewrite upd_same. cbn [vholds]. fold vI in Ph0. auto.
+      * intros q0. cbn. apply NSl.
+      * intros Q. congruence.
+      * intros _ Q. rewrite upd_same in Q. congruence.
+    + (* hand the mutex over: start waking *)
+      injection E as <- <-. destruct IB' as [KB CB].
+      set (v2 := view_of (PRun c0 (KUnlock q (UPWake 0 KPHead)))).
+      assert (V2 : v2 = set_vwake vI (Some (q, 1, 0, VP KPHead))) by (unfold v2, vI; destruct c0; try discriminate Hc; reflexivity).
+      assert (W2 : vwf v2) by (apply view_wf; [split; [exact Hc|exact Logic.I]|apply maint_cw3_nowait; change (v_wait v2 = None); rewrite V2; exact I1]).
+      eapply Inv1_ext; [intros u; apply upd_upd|].
+      assert (TP : tok (set_tok g q (TPass t)) q = TPass t) by (cbn; now rewrite upd_same).
+      split.
+      * refine (k_nowait m0 m0 (upd V t vI) _ t v2 KB (mpriv_refl _ _ _) W2 (or_introl eq_refl) eq_refl eq_refl eq_refl _ _ _ _ _ _ _).
+        -- now rewrite upd_same.
+        -- rewrite V2. exact I1.
+        -- left. now rewrite upd_same.
+        -- intros [|[|q0]] Q; rewrite V2 in Q; cbn [vholds set_vwake v_h0 v_h1] in Q; try discriminate Q; [|congruence].
+           apply (tk_hold _ _ _ KB t 0%nat). rewrite upd_same. exact Q.
+        -- rewrite V2. cbn. intros q0 cnt wc kp Q _. injection Q as <- <- <- <-. auto.
+        -- rewrite V2. cbn. intros q0 cnt wc w Q. injection Q as <- <- <- <-. cbn.
+           eapply (hand_none_pass _ _ _ t q KB); auto. now rewrite upd_same.
+        -- intros q0. cbn. apply NSl.
+      * refine (cinv_view (upd V t vI) _ c t v2 CB _ _ _ _); rewrite ?upd_same; rewrite V2;
+          cbn [set_vwake v_h1 v_trans v_wake v_cw3].
+        -- intros Q. congruence.
+        -- intros _ Q. congruence.
+        -- intros cnt wc w Q. exfalso. injection Q as Q1 _ _ _. contradiction.
+        -- tauto.
+  - (* waking the waiter *)
+    cbn [pstep] in E. cbn in Hk. unfold pstate in B. cbn in B.
+    destruct (wake_step m t q 1 wc kp false) as [m1 r] eqn:Ws.
+    destruct (wake_step0 _ _ _ _ _ _ _ _ _ Ws (fun _ => B) Hk) as (_ & R).
+    assert (NJ : r <> WJunk) by (intros ->; exact R).
+    assert (HVk : v_wake (V t) = Some (q, 1, wc, VP kp)) by (rewrite HV; destruct c0; try discriminate Hc; reflexivity).
+    pose proof (wake_inv m V g c t q 1 wc kp false m1 r I HVk Ws NJ) as IW.
+    rewrite gk_step_wake_unlock.
+    assert (G2 : gc_step m t (PRun c0 (KUnlock q (UPWake wc kp))) c = c).
+    { destruct (sched_now m (PRun c0 (KUnlock q (UPWake wc kp)))) as [[q1 f]|] eqn:S.
+      - eapply gc_sched_mutex; eauto.
+        + unfold sched_now in S. cbn in S. destruct (sched_of m kp); inversion S; subst; auto.
+        + intros c1 kp1 Q. inversion Q; subst; auto.
+      - apply gc_nosched; auto. intros c1 kp1 Q. inversion Q; subst; auto. }
+    rewrite G2. rewrite gc_wake_mutex in IW by auto.
+    destruct r as [wc' kp'|v|]; [| |destruct R].
+    + injection E as <- <-. cbn [wc_of res_pos] in IW.
+      eapply Inv1_ext; [|exact IW]. intros u. unfold upd. destruct (u =? t)%nat; auto.
+      rewrite HV. destruct c0; try discriminate Hc; reflexivity.
+    + injection E as <- <-. cbn [wc_of res_pos] in IW.
+      eapply Inv1_ext; [intros u; apply upd_upd|].
+      assert (Hcc : v_h1 (V t) = true -> g_trans c = 0 /\ g_claimed c = g_rel c).
+      { intros Q. rewrite HV in Q. destruct c0; try discriminate Hc; discriminate Q. }
+      destruct IW as [KW CW].
+      refine (jump_inv m1 m1 _ _ c t vI (conj KW CW) (mpriv_refl _ _ _) WI (or_introl eq_refl) eq_refl eq_refl eq_refl _ I1 I2 _ _ _ _ _).
+      * rewrite upd_same. exact HVw.
+      * right. rewrite upd_same. cbn. eauto.
+      * intros [|[|q0]] Q; cbn [vholds] in Q; try discriminate Q; [|congruence].
+        apply (tk_hold _ _ _ KW t 0%nat). rewrite upd_same. cbn [vholds set_vwake v_h0]. rewrite HV.
+        destruct (Nat.eq_dec 0%nat q) as [<-|Hn]; [change (v_h0 vI = false) in Fn; congruence|].
+        exact (eq_trans (Fo 0%nat Hn) Q).
+      * intros q0 Q. destruct (l_slot _ _ _ KW t q0 Q) as (_ & A & _). rewrite upd_same in A. cbn in A.
+        rewrite HV, Fc in A. discriminate A.
+      * intros Q. congruence.
+      * intros _ Q. rewrite upd_same in Q. cbn in Q. exfalso. rewrite HV in Q. destruct c0; try discriminate Hc; discriminate Q.
+  - assert (G1 : gk_step m t (PRun c0 (KUnlock q (UPYield sp))) g = g) by (destruct sp; reflexivity).
+    assert (G2 : gc_step m t (PRun c0 (KUnlock q (UPYield sp))) c = c).
+    { apply gc_nosched; [destruct sp; reflexivity|]. intros c1 kp1 Q. inversion Q; subst; auto. }
+    rewrite G1, G2. destruct sp as [|st]; cbn [pstep] in E.
+    + injection E as <- <-. eapply Inv1_ext; [|exact I]. intros u.
+      change (view_of (PRun c0 (KUnlock q (UPYield (SPNext (fstate m t)))))) with vI.
+      unfold upd. destruct (Nat.eqb_spec u t) as [->|]; auto.
+    + cbn in Hk. rewrite (st12_nw _ Hk) in E.
+      destruct (unlock_ret_view _ _ _ _ _ _ _ Hc E) as (-> & Pok & Pw & Pk & Pt & Ph1 & Ph0).
+      assert (HVk : v_wake (V t) = None) by (rewrite HV; destruct c0; try discriminate Hc; reflexivity).
+      apply (jump_inv m m V g c t); auto.
+      * apply mpriv_refl.
+      * apply view_wf; auto. now apply maint_cw3_nowait.
+      * intros [|[|q0]] Q; cbn [vholds] in Q; try discriminate Q; [|congruence].
+        apply (tk_hold _ _ _ K t 0%nat). rewrite HV. cbn. fold vI. auto.
+      * intros Q. congruence.
+      * intros _ Q. rewrite HV in Q. change (v_h1 vI = true) in Q. congruence.
+Qed.
+
+(* ------------------------------------------------------------------ *)
+(* the wake on the cond list, inside fiber_cond_signal / broadcast *)
+Lemma step1_wake m V g c t c0 q cnt wc kp m' p' :
+  Inv1 m V g c -> V t = view_of (PRun c0 (KWake q cnt wc kp)) -> linv0 m c t (PRun c0 (KWake q cnt wc kp)) ->
+  pstep m t (PRun c0 (KWake q cnt wc kp)) = (m', p') ->
+  step1_goal m V g c t (PRun c0 (KWake q cnt wc kp)) m' p'.
+Proof.
+  intros I HV [[Hc Hk] B H1 H2 H3 H4 H5] E. unfold step1_goal.
+  destruct c0; try discriminate Hc. destruct q as [|[|[|q]]]; try discriminate Hc.
+  cbn [pstep] in E. cbn in Hk. unfold pstate in B. cbn in B.
+  destruct (wake_step m t 2 cnt wc kp false) as [m1 r] eqn:Ws.
+  destruct (wake_step0 _ _ _ _ _ _ _ _ _ Ws (fun _ => B) Hk) as (_ & R).
+  assert (NJ : r <> WJunk) by (intros ->; exact R).
+  assert (HVk : v_wake (V t) = Some (COND, cnt, wc, VP kp)) by (rewrite HV; reflexivity).
+  pose proof (wake_inv m V g c t COND cnt wc kp false m1 r I HVk Ws NJ) as IW.
+  assert (G1 : gk_step m t (PRun (CS3 um p k) (KWake 2 cnt wc kp)) g = gk_wake m t COND kp g) by (destruct kp; reflexivity).
+  assert (G2 : gc_step m t (PRun (CS3 um p k) (KWake 2 cnt wc kp)) c = gc_wake m t COND kp c).
+  { unfold gc_step, gc_wake, sched_now. cbn [wake_ctx]. destruct (sched_of m kp); reflexivity. }
+  rewrite G1, G2.
+  destruct r as [wc' kp'|v|]; [| |destruct R].
+  - injection E as <- <-. cbn [wc_of res_pos] in IW.
+    eapply Inv1_ext; [|exact IW]. intros u. unfold upd. destruct (u =? t)%nat; auto. rewrite HV. reflexivity.
+  - cbn in E. injection E as <- <-. cbn [wc_of res_pos] in IW.
+    eapply Inv1_ext; [intros u; apply upd_upd|].
+    destruct IW as [KW CW].
+    set (V1 := upd V t (set_vwake (V t) (Some (COND, cnt, v, VDone)))) in *.
+    set (v' := view_of (PRun (CS4 um p k) (KUnlock IMUTEX UPAdd))).
+    assert (W' : vwf v') by (apply view_wf; [cbn; auto|apply maint_cw3_nowait; reflexivity]).
+    assert (V1t : V1 t = set_vwake (V t) (Some (COND, cnt, v, VDone))) by (unfold V1; now rewrite upd_same).
+    assert (Hh1 : v_h1 (V1 t) = true) by (rewrite V1t; cbn; rewrite HV; reflexivity).
+    destruct (cn_hold _ _ _ CW t Hh1) as [T O]. rewrite V1t in T, O. cbn in T. unfold vout in O. cbn in O.
+    destruct (cn_wc _ _ _ CW t cnt v VDone) as (_ & Wd & _); [rewrite V1t; reflexivity|].
+    rewrite HV in T. cbn in T.
+    refine (jump_inv m1 m1 V1 _ _ t v' (conj KW CW) (mpriv_refl _ _ _) W' (or_introl eq_refl) eq_refl eq_refl eq_refl _ eq_refl eq_refl _ _ _ _ _).
+    + rewrite V1t. cbn. rewrite HV. reflexivity.
+    + right. rewrite V1t. cbn. eauto.
+    + intros [|[|q0]] Q; cbn in Q; try discriminate Q.
+      * apply (tk_hold _ _ _ KW t 0%nat). rewrite V1t. cbn. rewrite HV. exact Q.
+      * apply (tk_hold _ _ _ KW t 1%nat). exact Hh1.
+    + intros q0 Q. destruct (l_slot _ _ _ KW t q0 Q) as (_ & A & _). rewrite V1t in A. cbn in A. rewrite HV in A. discriminate A.
+    + intros _. cbn. split; auto. lia.
+    + intros Q. discriminate Q.
+Qed.
+
+(* ------------------------------------------------------------------ *)
+(* the wait of fiber_cond_wait: state flip, deferred unlock of the user mutex, sleep *)
+Definition cwv (p : list cop) (k : nat) (wp : waitpos) : view := view_of (PRun (CW3 p k) (KWait COND wp)).
+
+Lemma cwv_fields p k wp :
+  v_wait (cwv p k wp) = Some (COND, norm_wp wp) /\ v_lockw (cwv p k wp) = false /\ v_cw3 (cwv p k wp) = true /\
+  v_h1 (cwv p k wp) = false /\ v_trans (cwv p k wp) = false /\ v_h0 (cwv p k wp) = pre_unlock wp.
+Proof. unfold cwv. cbn. auto 10. Qed.
+
+Lemma cwv_nomaint p k wp : ismaintw wp = false -> v_wake (cwv p k wp) = None /\ v_uadd (cwv p k wp) = None.
+Proof. destruct wp as [| | | | |[]]; cbn; auto; discriminate. Qed.
+
+Lemma cwv_wf p k wp : wait_ok wp -> vwf (cwv p k wp).
+Proof.
+  intros H. apply view_wf; [split; auto|]. intros q wp0 Q _. reflexivity.
+Qed.
+
+Lemma sleep_p_mem m0 t : sleep_p m0 t = (fst (sleep_mem m0 t), YCont (match snd (sleep_mem m0 t) with WPYield yp => yp | _ => YPAsleep end)).
+Proof. unfold sleep_p, sleep_mem. destruct (pend m0 t); reflexivity. Qed.
+
+Lemma sleep_wp m0 t : WPYield (match snd (sleep_mem m0 t) with WPYield yp => yp | _ => YPAsleep end) = snd (sleep_mem m0 t) /\
+  ismaintw (snd (sleep_mem m0 t)) = false /\ wait_ok (snd (sleep_mem m0 t)) /\ pre_unlock (snd (sleep_mem m0 t)) = false.
+Proof. unfold sleep_mem. destruct (pend m0 t); cbn; auto. Qed.
+
+(* go to sleep in the cond wait, from a (possibly virtual) view v0 of the wait *)
+Lemma cw_sleep m V g c t p k wp :
+  Inv1 m V g c -> v_wait (V t) = Some (COND, wp) -> presleep wp = true -> (forall a b, wp <> WPLink a b) ->
+  v_lockw (V t) = false -> v_cw3 (V t) = true ->
+  (forall cnt wc w q0, v_wake (V t) = Some (q0, cnt, wc, w) -> inhand w = false /\ q0 <> COND) ->
+  slot_mutex m t = None ->
+  Inv1 (fst (sleep_mem m t)) (upd V t (cwv p k (snd (sleep_mem m t)))) g c.
+Proof.
+  intros I Hw Hp Hnl Hl Hc Hk Hs.
+  destruct (sleep_wp m t) as (_ & S2 & S3 & S4).
+  destruct (cwv_fields p k (snd (sleep_mem m t))) as (F1 & F2 & F3 & F4 & F5 & F6).
+  destruct (cwv_nomaint p k _ S2) as [F7 F8].
+  refine (to_sleep m m V g c t COND wp _ I Hw Hp Hnl Hk (mpriv_refl _ _ _) (or_introl eq_refl) eq_refl eq_refl eq_refl Hs
+            (cwv_wf p k _ S3) _ _ _ F7 F8 _).
+  - rewrite F1. now rewrite (norm_nomaint _ S2).
+  - congruence.
+  - congruence.
+  - rewrite F6, S4. discriminate.
+Qed.
+
+Lemma cw_flip m V g c t p k m1 r :
+  Inv1 m V g c -> V t = cwv p k (WPYield YPMFlip) ->
+  slot_sched m t = false -> slot_mpmc m t = None -> slot_wait m t = None ->
+  yield_step m t YPMFlip = (m1, r) ->
+  exists yp', r = YCont yp' /\ Inv1 m1 (upd V t (cwv p k (WPYield yp'))) g c.
+Proof.
+  intros [I C] HV S1 S2 S3 E. cbn in E. unfold slots_p in E. cbn in E. rewrite S1, S2, S3 in E.
+  destruct (cwv_fields p k (WPYield YPMFlip)) as (F1 & F2 & F3 & F4 & F5 & F6).
+  destruct (cwv_nomaint p k (WPYield YPMFlip) eq_refl) as [F7 F8].
+  rewrite <- HV in F1, F2, F3, F4, F5, F6, F7, F8. cbn in F1, F6.
+  set (m0 := set_fstate m t ST_WAITING) in *.
+  pose proof (l_acct _ _ _ I t) as La. rewrite F1 in La. cbn in La. destruct La as [Ab Ap].
+  destruct (slot_mutex m t) as [q0|] eqn:Es.
+  - (* the deferred unlock *)
+    destruct (l_slot _ _ _ I t q0 Es) as (-> & _).
+    injection E as <- <-. exists (YPMaint UMUTEX IPAdd). split; [reflexivity|].
+    set (m1 := set_slot_mutex m0 t None). set (v' := cwv p k (WPYield (YPMaint UMUTEX IPAdd))).
+    assert (P : mpriv t g m m1).
+    { constructor; auto; intros u Hu; cbn; now rewrite upd_other. }
+    assert (W' : vwf v') by (apply cwv_wf; cbn; auto).
+    split.
+    + apply (inv_private m m1 V g t v' I P W').
+      * right; left. cbn. now rewrite upd_same.
+      * left; reflexivity.
+      * apply (l_own _ _ _ I t).
+      * apply (holds_from _ _ _ _ _ I); [intros _; exact F6|intros Q; discriminate Q].
+      * intros q0 wp _ Q. discriminate Q.
+      * intros q0 cnt wc kp Q. discriminate Q.
+      * intros q0 a b Q. rewrite F1 in Q. discriminate Q.
+      * intros q0 wp Q _ _. rewrite F1 in Q. injection Q as <- <-. cbn. eauto.
+      * intros q0 cnt wc w Q. congruence.
+      * intros q0 cnt wc w Q. discriminate Q.
+      * intros q0 wp Q. injection Q as <- <-. exact Logic.I.
+      * cbn. auto.
+      * exact Logic.I.
+      * cbn. intros H. apply (l_node _ _ _ I t). rewrite F1. exact H.
+      * cbn. rewrite upd_same. intros q0 Q. discriminate Q.
+      * intros q0 q' ip _. reflexivity.
+    + apply cinv_view; auto; cbn.
+      * intros Q. discriminate Q.
+      * intros _ Q. congruence.
+      * intros cnt wc w Q. discriminate Q.
+      * rewrite F3. tauto.
+  - (* nothing deferred: sleep *)
+    rewrite (sleep_p_mem m0 t) in E. injection E as <- <-.
+    destruct (sleep_wp m0 t) as (W1 & W2 & W3 & W4).
+    eexists. split; [reflexivity|]. rewrite W1.
+    destruct (cwv_fields p k (snd (sleep_mem m0 t))) as (G1 & G2 & G3 & G4 & G5 & G6).
+    destruct (cwv_nomaint p k _ W2) as [G7 G8].
+    refine (to_sleep m m0 V g c t COND (WPYield YPMFlip) _ (conj I C) F1 eq_refl _ _ (mpriv_fstate _ _ _ _) _ eq_refl eq_refl eq_refl Es
+              (cwv_wf p k _ W3) _ _ _ G7 G8 _).
+    + intros a b Q. discriminate Q.
+    + intros cnt wc w q0 Q. congruence.
+    + right. cbn. now rewrite upd_same.
+    + rewrite G1. now rewrite (norm_nomaint _ W2).
+    + congruence.
+    + congruence.
+    + rewrite G6, W4. discriminate.
+Qed.
+
+Definition maint0 : waitpos := WPYield (YPMaint UMUTEX IPAdd).
+
+(* the virtual view between the fetch_add of the deferred unlock and what follows *)
+Definition cw_mid (p : list cop) (k : nat) : view :=
+  set_vh0 (set_vuadd (cwv p k maint0) None) false.
+
+Lemma cw_mid_wf p k : vwf (cw_mid p k).
+Proof.
+  constructor; cbn; intros; try discriminate; auto.
+  - inversion H; subst. unfold isq, COND. repeat split; auto; discriminate.
+  - eexists. split; reflexivity.
+  - destruct H0 as [Q|Q]; exfalso; apply Q; reflexivity.
+Qed.
+
+Lemma cw_drop m V g c t p k :
+  Inv1 m V g c -> V t = cwv p k maint0 -> Inv1 m (upd V t (cw_mid p k)) g c.
+Proof.
+  intros [I C] HV.
+  assert (F1 : v_wait (V t) = Some (COND, maint0)) by (rewrite HV; reflexivity).
+  split.
+  - apply (inv_private m m V g t _ I (mpriv_refl _ _ _) (cw_mid_wf p k)).
+    + left; reflexivity.
+    + left; reflexivity.
+    + apply (l_own _ _ _ I t).
+    + intros [|[|q]] Q; discriminate Q.
+    + intros q wp _ Q. discriminate Q.
+    + intros q cnt wc kp Q. discriminate Q.
+    + intros q a b Q. rewrite F1 in Q. discriminate Q.
+    + intros q wp Q _ _. rewrite F1 in Q. injection Q as <- <-. cbn. eauto.
+    + intros q cnt wc w Q. rewrite HV in Q. discriminate Q.
+    + intros q cnt wc w Q. discriminate Q.
+    + intros q wp Q. injection Q as <- <-. exact Logic.I.
+    + pose proof (l_acct _ _ _ I t) as A. rewrite F1 in A. exact A.
+    + exact Logic.I.
+    + pose proof (l_node _ _ _ I t) as A. rewrite F1 in A. exact A.
+    + intros q Q. destruct (l_slot _ _ _ I t q Q) as (_ & _ & wp & A & B). rewrite F1 in A. injection A as <-. discriminate B.
+    + intros q q' ip _. reflexivity.
+  - apply cinv_view; auto; cbn.
+    + intros Q. discriminate Q.
+    + intros _ Q. rewrite HV in Q. discriminate Q.
+    + intros cnt wc w Q. discriminate Q.
+    + rewrite HV. cbn. tauto.
+Qed.
+
+Lemma cw_uadd m V g c t p k m1 r :
+  Inv1 m V g c -> V t = cwv p k maint0 ->
+  slot_sched m t = false -> slot_mpmc m t = None -> slot_wait m t = None ->
+  yield_step m t (YPMaint UMUTEX IPAdd) = (m1, r) ->
+  exists yp', r = YCont yp' /\
+    Inv1 m1 (upd V t (cwv p k (WPYield yp'))) (set_tok g UMUTEX (if word m UMUTEX + 1 =? 1 then TFree else TPass t)) c.
+Proof.
+  intros I HV S1 S2 S3 E. pose proof I as [K C].
+  assert (Tk : tok g UMUTEX = THeld t) by (apply (tk_hold _ _ _ K t 0%nat); rewrite HV; reflexivity).
+  assert (NS : slot_mutex m t = None).
+  { destruct (slot_mutex m t) eqn:Es; auto. exfalso. destruct (l_slot _ _ _ K t _ Es) as (_ & _ & wp & A & B).
+    rewrite HV in A. injection A as <-. discriminate B. }
+  pose proof (cw_drop m V g c t p k I HV) as IA.
+  assert (IB := uadd_inv m (upd V t (cw_mid p k)) g c t UMUTEX IA eq_refl Tk).
+  rewrite upd_same in IB. specialize (IB eq_refl ltac:(intros wp Q; discriminate Q)).
+  cbn [yield_step unlki_step] in E. set (m0 := set_word m UMUTEX (word m UMUTEX + 1)) in *.
+  destruct (word m UMUTEX + 1 =? 1) eqn:Ew.
+  - (* nobody waits for the user mutex: sleep *)
+    unfold slots_p in E. cbn in E. rewrite S1, S2, NS, S3 in E.
+    change (sleep_p m0 t = (m1, r)) in E. rewrite (sleep_p_mem m0 t) in E. injection E as <- <-.
+    destruct (sleep_wp m0 t) as (W1 & W2 & W3 & W4).
+    eexists. split; [reflexivity|]. rewrite W1.
+    eapply Inv1_ext; [intros u; apply upd_upd|].
+    apply (cw_sleep m0 _ _ c t p k maint0 IB); rewrite ?upd_same; auto.
+    + intros a b Q. discriminate Q.
+    + intros cnt wc w q0 Q. discriminate Q.
+  - (* hand the user mutex over *)
+    injection E as <- <-. eexists. split; [reflexivity|].
+    destruct IB as [KB CB].
+    set (v2 := cwv p k (WPYield (YPMaint UMUTEX (IPWake 0 KPHead)))).
+    assert (V2 : v2 = set_vwake (cw_mid p k) (Some (UMUTEX, 1, 0, VP KPHead))) by reflexivity.
+    eapply Inv1_ext; [intros u; apply upd_upd|].
+    set (g' := set_tok g UMUTEX (TPass t)) in *.
+    assert (TP : tok g' UMUTEX = TPass t) by reflexivity.
+    split.
+    + apply (inv_private m0 m0 (upd V t (cw_mid p k)) g' t v2 KB (mpriv_refl _ _ _)); rewrite ?upd_same.
+      * apply cwv_wf. cbn. auto.
+      * left; reflexivity.
+      * left; reflexivity.
+      * apply (l_own _ _ _ KB t).
+      * intros [|[|q]] Q; discriminate Q.
+      * intros q wp _ Q. discriminate Q.
+      * intros q cnt wc kp Q _. injection Q as <- <- <- <-. auto.
+      * intros q a b Q. discriminate Q.
+      * intros q wp Q _ _. injection Q as <- <-. cbn. eauto.
+      * intros q cnt wc w Q. discriminate Q.
+      * intros q cnt wc w Q. injection Q as <- <- <- <-. cbn.
+        apply (hand_none_pass _ _ _ t UMUTEX KB); auto; [left; reflexivity|now rewrite upd_same].
+      * intros q wp Q. injection Q as <- <-. exact Logic.I.
+      * pose proof (l_acct _ _ _ KB t) as A. rewrite upd_same in A. exact A.
+      * exact Logic.I.
+      * pose proof (l_node _ _ _ KB t) as A. rewrite upd_same in A. exact A.
+      * intros q Q. cbn in Q. rewrite NS in Q. discriminate Q.
+      * intros q q' ip _. reflexivity.
+    + refine (cinv_view _ _ c t v2 CB _ _ _ _); rewrite ?upd_same; cbn.
+      * intros Q. discriminate Q.
+      * intros _ Q. discriminate Q.
+      * intros cnt wc w Q. discriminate Q.
+      * tauto.
+Qed.
+
+Lemma cw_wake m V g c t p k wc kp m2 r :
+  Inv1 m V g c -> V t = cwv p k (WPYield (YPMaint UMUTEX (IPWake wc kp))) ->
+  slot_sched m t = false -> slot_mpmc m t = None -> slot_wait m t = None -> wake_ok kp true ->
+  yield_step m t (YPMaint UMUTEX (IPWake wc kp)) = (m2, r) ->
+  exists yp', r = YCont yp' /\ Inv1 m2 (upd V t (cwv p k (WPYield yp'))) (gk_wake m t UMUTEX kp g) c.
+Proof.
+  intros I HV S1 S2 S3 Hk E. pose proof I as [K C].
+  assert (HVk : v_wake (V t) = Some (UMUTEX, 1, wc, VP kp)) by (rewrite HV; reflexivity).
+  assert (HVw : v_wait (V t) = Some (COND, maint0)) by (rewrite HV; reflexivity).
+  assert (NS : slot_mutex m t = None).
+  { destruct (slot_mutex m t) eqn:Es; auto. exfalso. destruct (l_slot _ _ _ K t _ Es) as (_ & _ & wp & A & B).
+    rewrite HVw in A. injection A as <-. discriminate B. }
+  cbn [yield_step unlki_step] in E.
+  destruct (wake_step m t UMUTEX 1 wc kp true) as [m1 res] eqn:Ws.
+  destruct (wake_step0 _ _ _ _ _ _ _ _ _ Ws ltac:(discriminate) Hk) as (F0 & R).
+  assert (NJ : res <> WJunk) by (intros ->; exact R).
+  pose proof (wake_inv m V g c t UMUTEX 1 wc kp true m1 res I HVk Ws NJ) as IW.
+  rewrite gc_wake_mutex in IW by discriminate.
+  destruct res as [wc' kp'|v|]; [| |destruct R].
+  - injection E as <- <-. eexists. split; [reflexivity|]. cbn [wc_of res_pos] in IW.
+    eapply Inv1_ext; [|exact IW]. intros u. unfold upd. destruct (u =? t)%nat; auto. rewrite HV. reflexivity.
+  - cbn [wc_of res_pos] in IW.
+    assert (NS1 : slot_mutex m1 t = None).
+    { destruct F0 as (_ & _ & _ & _ & Q & _). now rewrite Q. }
+    assert (S1' : slot_sched m1 t = false) by (destruct F0 as (_ & Q & _); now rewrite Q).
+    assert (S2' : slot_mpmc m1 t = None) by (destruct F0 as (_ & _ & Q & _); now rewrite Q).
+    assert (S3' : slot_wait m1 t = None) by (destruct F0 as (_ & _ & _ & Q & _); now rewrite Q).
+    unfold slots_p in E. rewrite S1', S2', NS1, S3' in E.
+    rewrite (sleep_p_mem m1 t) in E. injection E as <- <-.
+    destruct (sleep_wp m1 t) as (W1 & W2 & W3 & W4).
+    eexists. split; [reflexivity|]. rewrite W1.
+    eapply Inv1_ext; [intros u; apply upd_upd|].
+    apply (cw_sleep m1 _ _ c t p k maint0 IW); rewrite ?upd_same; cbn [set_vwake v_wait v_lockw v_cw3 v_wake]; auto.
+    + intros a b Q. discriminate Q.
+    + rewrite HV. reflexivity.
+    + rewrite HV. reflexivity.
+    + intros cnt wc0 w q0 Q. injection Q as <- <- <- <-. split; [reflexivity|discriminate].
+Qed.
+
+Lemma condwait_view p k wp wp' :
+  ismaintw wp = false -> ismaintw wp' = false -> pre_unlock wp' = pre_unlock wp ->
+  cwv p k wp' = set_vwait (cwv p k wp) (Some (COND, wp')).
+Proof.
+  intros Hn Hn' Hp. unfold cwv, view_of, set_vwait. cbn. rewrite (norm_nomaint _ Hn'), Hp.
+  destruct wp as [| | | | |[| | | | | |q0 ip0| |]]; try discriminate Hn;
+  destruct wp' as [| | | | |[| | | | | |q' ip| |]]; try discriminate Hn'; reflexivity.
+Qed.
+
+Lemma wait_simple_preunlock m t q wp m1 wp' :
+  wait_step m t q wp = (m1, TCont wp') -> ismaintw wp = false -> wp <> WPYield YPMFlip ->
+  (wp = WPYield YPMRead -> fstate m t = ST_SAVING) ->
+  (forall st, wp = WPYield (YPNext true st) -> waitingish st = false) ->
+  pre_unlock wp' = pre_unlock wp.
+Proof.
+  intros E Hn Hf Hs Hnt. destruct wp as [| | | | |yp]; cbn in E; try (injection E as <- <-; reflexivity).
+  destruct yp as [b|b st| | | | |q' ip| |]; cbn in E; try discriminate Hn; try (injection E as <- <-; reflexivity).
+  - destruct (waitingish st) eqn:W; [|discriminate E]. injection E as <- <-.
+    destruct b; [rewrite (Hnt st eq_refl) in W; discriminate W|reflexivity].
+  - destruct (fstate m t =? ST_RUNNING); [discriminate E|injection E as <- <-; reflexivity].
+  - rewrite (Hs eq_refl) in E. cbn in E. injection E as <- <-; reflexivity.
+  - congruence.
+Qed.
+
+Lemma slots_p_noret m t m' : slots_p m t <> (m', YRet).
+Proof.
+  unfold slots_p, sleep_p. destruct (slot_sched m t); [discriminate|]. destruct (slot_mpmc m t); [discriminate|].
+  destruct (slot_mutex m t); [discriminate|]. destruct (slot_wait m t); [discriminate|]. destruct (pend m t); discriminate.
+Qed.
+
+Lemma step1_condwait m V g c t c0 q wp m' p' :
+  Inv1 m V g c -> V t = view_of (PRun c0 (KWait q wp)) -> linv0 m c t (PRun c0 (KWait q wp)) ->
+  pstep m t (PRun c0 (KWait q wp)) = (m', p') ->
+  (wp = WPYield YPAsleep -> blocked m t = false) ->
+  step1_goal m V g c t (PRun c0 (KWait q wp)) m' p'.
+Proof.
+  intros I HV [[Hc Hk] B H1 H2 H3 H4 H5] E Hbl. unfold step1_goal.
+  destruct c0; try discriminate Hc. destruct q as [|[|[|q]]]; try discriminate Hc.
+  change (V t = cwv p k wp) in HV. pose proof I as [K C].
+  destruct (cwv_fields p k wp) as (F1 & F2 & F3 & F4 & F5 & F6). rewrite <- HV in F1, F2, F3, F4, F5, F6.
+  cbn in Hk.
+  assert (G2 : gc_step m t (PRun (CW3 p k) (KWait 2 wp)) c = c) by (apply (gc_wait m t (CW3 p k) 2%nat wp c _ Hk eq_refl); right; reflexivity).
+  rewrite G2. cbn [pstep] in E. unfold pstate in B. cbn in B.
+  pose proof (l_stat _ _ _ K t) as Ls. rewrite F1 in Ls.
+  destruct (wait_step m t 2 wp) as [m1 r] eqn:Ws.
+  destruct (wait_step0 _ _ _ _ _ _ Ws H1 H2 H3 H4 Hk B) as (_ & _ & R).
+  destruct r as [wp'| |]; [| |destruct R].
+  - injection E as <- <-.
+    destruct (ismaintw wp) eqn:NM.
+    + (* inside do_maintenance *)
+      destruct wp as [| | | | |[b|b st| | | | |q' ip| |]]; try discriminate NM.
+      cbn in Hk. destruct Hk as [-> Hk]. cbn [wait_step] in Ws.
+      destruct (yield_step m t (YPMaint UMUTEX ip)) as [m2 r2] eqn:Ys.
+      destruct ip as [|wc kp].
+      * destruct (cw_uadd m V g c t p k m2 r2 I HV H1 H2 H3 Ys) as (yp' & -> & IF).
+        injection Ws as <- <-.
+        assert (G1 : gk_step m t (PRun (CW3 p k) (KWait 2 (WPYield (YPMaint UMUTEX IPAdd)))) g
+                     = set_tok g UMUTEX (if word m UMUTEX + 1 =? 1 then TFree else TPass t)).
+        { cbn. destruct (word m UMUTEX + 1 =? 1); reflexivity. }
+        rewrite G1. exact IF.
+      * destruct (cw_wake m V g c t p k wc kp m2 r2 I HV H1 H2 H3 Hk Ys) as (yp' & -> & IF).
+        injection Ws as <- <-.
+        assert (G1 : gk_step m t (PRun (CW3 p k) (KWait 2 (WPYield (YPMaint UMUTEX (IPWake wc kp))))) g
+                     = gk_wake m t UMUTEX kp g) by (destruct kp; reflexivity).
+        rewrite G1. exact IF.
+    + destruct (waitpos_eq_flip wp) as [->|NF].
+      * (* the state flip *)
+        cbn [wait_step] in Ws. destruct (yield_step m t YPMFlip) as [m2 r2] eqn:Ys.
+        destruct (cw_flip m V g c t p k m2 r2 I HV H1 H2 H3 Ys) as (yp' & -> & IF).
+        injection Ws as <- <-. exact IF.
+      * assert (HS : wp = WPYield YPMRead -> fstate m t = ST_SAVING) by (intros ->; exact Ls).
+        assert (HN : forall st, wp = WPYield (YPNext true st) -> waitingish st = false)
+          by (intros st ->; cbn in Hk; now apply st12_nw).
+        pose proof (wait_cont_nomaint _ _ _ _ _ _ Ws NM NF HS) as NM'.
+        pose proof (wait_simple_preunlock _ _ _ _ _ _ Ws NM NF HS HN) as PU.
+        rewrite (norm_nomaint _ NM) in F1.
+        destruct (cwv_nomaint p k wp NM) as [F7 F8]. rewrite <- HV in F7, F8.
+        change (view_of (PRun (CW3 p k) (KWait 2 wp'))) with (cwv p k wp').
+        rewrite (condwait_view p k wp wp' NM NM' PU), <- HV.
+        assert (G1 : gk_step m t (PRun (CW3 p k) (KWait 2 wp)) g = gk_wait t 2 wp g).
+        { destruct wp as [| | | | |[b|b st| | | | |q' ip| |]]; try reflexivity; try discriminate NM.
+          cbn in Ws. cbn. destruct (waitingish st); [reflexivity|discriminate Ws]. }
+        rewrite G1. apply (wait_simple m); auto.
+        destruct wp as [| | | | |[| | | | | |q' ip| |]]; auto; congruence.
+  - (* the wait returns: lock the user mutex again *)
+    destruct wp as [| | | | |[b|b st| | | | |q' ip| |]]; cbn in Ws; try discriminate Ws.
+    + destruct (waitingish st) eqn:Ews; [discriminate Ws|]. injection Ws as <-.
+      destruct b.
+      2:{ exfalso. cbn in Ls. destruct Ls as [_ ->]. discriminate Ews. }
+      assert (G1 : gk_step m t (PRun (CW3 p k) (KWait 2 (WPYield (YPNext true st)))) g = set_got g t false).
+      { cbn. now rewrite Ews. }
+      rewrite G1. cbn in E. injection E as <- <-.
+      apply (wait_return m V g c t COND st); auto.
+      * apply view_wf; [cbn; auto|apply maint_cw3_nowait; reflexivity].
+      * intros [|[|q0]] Q; discriminate Q.
+    + destruct (fstate m t =? ST_RUNNING); discriminate Ws.
+    + cbn in Ls. rewrite Ls in Ws. cbn in Ws. discriminate Ws.
+    + destruct (slots_p (set_fstate m t ST_WAITING) t) as [mm [yy| |]] eqn:Sp; try discriminate Ws.
+      exfalso. eapply slots_p_noret; eauto.
+    + destruct (unlki_step m t q' ip true) as [m3 [ip'|v|]]; try discriminate Ws.
+      destruct (slots_p m3 t) as [mm [yy| |]] eqn:Sp; try discriminate Ws.
+      exfalso. eapply slots_p_noret; eauto.
+Qed.
+
+(* ------------------------------------------------------------------ *)
+(* assembly *)
+Ltac okb_solve H :=
+  cbn in H;
+  repeat match type of H with
+  | context [match ?x with _ => _ end] => destruct x; try discriminate H
+  end; auto.
+
+Lemma okb_cw2 p k q d mo : cphase_okb (CW2 p k) (KAcc (AWFAdd q d mo)) = true -> q = COND /\ d = 1 /\ mo = 3.
+Proof. intros H. okb_solve H. Qed.
+Lemma okb_cs2 um p k q d mo : cphase_okb (CS2 um p k) (KAcc (AWFSub q d mo)) = true -> q = COND /\ d = 1 /\ mo = 5.
+Proof. intros H. okb_solve H. Qed.
+Lemma okb_cs3 um p k q d mo : cphase_okb (CS3 um p k) (KAcc (AWFAdd q d mo)) = true -> q = COND /\ d = 1 /\ mo = 5.
+Proof. intros H. okb_solve H. Qed.
+Lemma okb_cb2 um p k q v mo : cphase_okb (CB2 um p k) (KAcc (AWXchg q v mo)) = true -> q = COND /\ v = 0 /\ mo = 2.
+Proof. intros H. okb_solve H. Qed.
+
+Lemma step1 m V g c t p m' p' :
+  Inv1 m V g c -> V t = view_of p -> linv0 m c t p ->
+  word m COND = g_reg c - g_claimed c - g_trans c ->
+  pstep m t p = (m', p') ->
+  (forall q, wait_ctx p = Some (q, WPYield YPAsleep) -> blocked m t = false) ->
+  step1_goal m V g c t p m' p'.
+Proof.
+  intros I HV L Hcnt E Hb.
+  destruct p as [| s | c0 kp].
+  - cbn in E. injection E as <- <-. unfold step1_goal.
+    eapply Inv1_ext; [|exact I]. intros u. unfold upd. destruct (Nat.eqb_spec u t) as [->|]; auto.
+  - destruct L as [[] _ _ _ _ _ _].
+  - destruct kp as [| a | q lp | q wp | q up | q cnt wc kp].
+    + eapply step1_start; eauto.
+    + destruct (plain_client c0) eqn:P; [eapply step1_acc_plain; eauto|].
+      pose proof (l0_shape _ _ _ _ L) as [Hc _].
+      destruct c0; try discriminate P; destruct a as [i v|i|q d mo|q d mo|q v mo|q mo]; try discriminate Hc.
+      * destruct (okb_cw2 _ _ _ _ _ Hc) as (-> & -> & ->). eapply step1_reg; eauto.
+      * destruct (okb_cs2 _ _ _ _ _ _ Hc) as (-> & -> & ->). eapply step1_sig; eauto.
+      * destruct (okb_cb2 _ _ _ _ _ _ Hc) as (-> & -> & ->). eapply step1_bc; eauto.
+      * destruct (okb_cs3 _ _ _ _ _ _ Hc) as (-> & -> & ->). eapply step1_untrans; eauto.
+    + destruct lp as [|wp].
+      * eapply step1_lsub; eauto.
+      * eapply step1_lockwait; eauto. intros ->. eapply Hb. reflexivity.
+    + eapply step1_condwait; eauto. intros ->. eapply Hb. reflexivity.
+    + eapply step1_unlock; eauto.
+    + eapply step1_wake; eauto.
+Qed.
+
+Lemma ready_asleep x t q : sim x -> status_of (base x) t = SReady ->
+  wait_ctx (ph x t) = Some (q, WPYield YPAsleep) -> blocked (mem (base x)) t = false.
+Proof.
+  intros S R W. unfold status_of in R. destruct (t <? nthr (base x))%nat; [|discriminate R].
+  rewrite (S t) in R. destruct (ph x t) as [| s |c0 kp]; try discriminate W.
+  destruct kp as [| a | q0 lp | q0 wp0 | q0 up | q0 cnt wc kp]; try discriminate W.
+  - destruct lp as [|wp0]; try discriminate W. cbn in W. injection W as -> ->.
+    cbn in R. destruct (blocked (mem (base x)) t); [discriminate R|reflexivity].
+  - cbn in W. injection W as -> ->.
+    cbn in R. destruct (blocked (mem (base x)) t); [discriminate R|reflexivity].
+Qed.
+
+Lemma ix_init progs : IX (iinit progs).
+Proof.
+  unfold IX. cbn [iinit base ph kg cg mem init].
+  split.
+  - constructor.
+    + intros t q H. destruct q as [|[|q]]; discriminate H.
+    + intros t q wp H. discriminate H.
+    + intros t q cnt wc kp H. discriminate H.
+    + intros q Hq. destruct q as [|[|q]]; try discriminate Hq; cbn; repeat split; try lia; intros u Q; discriminate Q.
+    + intros q Hq. unfold chain. cbn. constructor; [intros []|constructor].
+    + intros q n Hq. unfold chain. cbn. intros [<-|[]]. destruct Hq as [->|[->| ->]]; cbn; split; auto; discriminate.
+    + intros q Hq. reflexivity.
+    + intros q a b Hq [l1 [l2 E]]. unfold chain in E. cbn in E. destruct l1 as [|? [|? ?]]; discriminate E.
+    + intros q Hq. reflexivity.
+    + intros q e n Hq [].
+    + intros q Hq. constructor.
+    + intros q e Hq H. discriminate H.
+    + intros u q cnt wc w H. discriminate H.
+    + intros t q wp H. discriminate H.
+    + intros t. cbn. auto.
+    + intros t. exact Logic.I.
+    + intros t Hf. cbn. replace (3 + 1 + t)%nat with (S (S (S (S t)))) by lia. reflexivity.
+    + intros t _. cbn. lia.
+    + intros t q H. discriminate H.
+    + intros t q q' ip H. discriminate H.
+    + intros t. constructor; cbn; intros; try discriminate; auto.
+  - constructor; cbn.
+    + intros t H. discriminate H.
+    + intros _. auto.
+    + intros t cnt wc w H. discriminate H.
+    + reflexivity.
+    + constructor.
+    + intros t. split; [intros []|intros [Q _]; discriminate Q].
+Qed.
+
+Lemma ix_step x t : Inv0 x -> IX x -> status_of (base x) t = SReady -> IX (lstep x t).
+Proof.
+  intros I0 I R. unfold IX in *.
+  pose proof (i0_sim _ I0) as S.
+  rewrite (lstep_mem x t S). cbn [lstep ph kg cg].
+  destruct (pstep (mem (base x)) t (ph x t)) as [m' p'] eqn:E. cbn [fst snd].
+  eapply Inv1_ext.
+  2:{ apply (step1 (mem (base x)) (fun u => view_of (ph x u)) (kg x) (cg x) t (ph x t) m' p'); auto.
+      - apply (i0_loc _ I0 t).
+      - apply (i0_count _ I0).
+      - intros q W. eapply ready_asleep; eauto. }
+  intros u. unfold upd. destruct (u =? t)%nat; reflexivity.
+Qed.
+
+Theorem inv_reach progs x : ireach progs x -> Inv0 x /\ IX x.
+Proof.
+  induction 1 as [|x t R [I0 I] St].
+  - split; [apply inv0_init|apply ix_init].
+  - split; [apply inv0_step; auto|apply ix_step; auto].
+Qed.
+Print Assumptions inv_reach.
